@@ -342,7 +342,7 @@ def gen_table(ctx):
         "macros": {fid: [{"macro": m, "msg": msg, "count": c, "invariant": ""} for (m, msg), c in sorted(cnt.items())] for fid, cnt in sorted(mac.items())},
         "ops": {file: {fid: dict(c) for fid, c in sorted(fns.items())} for file, fns in sorted(ops.items())},
         "span_consts": span_consts(ctx),
-        "recursion": [{"scc": c[0], "status": "new"} for c in comps],
+        "recursion": [{"scc": c[0], "members": list(c), "status": "new"} for c in comps],
     }
 
 
@@ -461,10 +461,15 @@ def run(ctx):
     comps = sccs(db, {n for n in reach if n in db.fns})
     tabled = {e["scc"]: e for e in table["recursion"]}
     for c in comps:
-        key = "scc:" + c[0]
+        # a reviewed SCC is recognised by its members, not by which of them sorts first (a rename / an extracted or merged
+        # helper changes the representative)
+        e = tabled.get(c[0])
+        if e is None:
+            cand = [t_ for t_ in table["recursion"] if set(t_.get("members", [t_["scc"]])) & set(c)]
+            e = cand[0] if len(cand) == 1 else None
+        key = "scc:" + (e["scc"] if e is not None else c[0])
         guarded = has_depth_guard(ctx, c)
         desc = "%d function(s): %s%s" % (len(c), ", ".join("::".join(x.split("::")[-2:]) for x in c[:4]), ", …" if len(c) > 4 else "")
-        e = tabled.get(c[0])
         if guarded:
             ctx.ob("R14.4", key, True, "recursion is bounded by a depth guard (%s)" % desc, site=db.fns[c[0]].span)
         elif e is not None and e["status"] == "dominated":
